@@ -179,12 +179,18 @@ def run(prog: Program, res: Result) -> None:  # noqa: PLR0912, PLR0915
             ci = prog.resolve(ex, cls_name)
             sm = ci.methods.get("__str__") if isinstance(ci, ClassInfo) else None
             printed = None
-            if sm is not None:
-                for js in ast.walk(sm.node):
-                    if isinstance(js, ast.JoinedStr):
-                        consts = [v.value.strip() for v in js.values if isinstance(v, ast.Constant) and str(v.value).strip()]
-                        if len(consts) == 1:
-                            printed = consts[0]
+            if sm is not None and isinstance(ci, ClassInfo):
+                # the symbol is whatever stands between the operands when the class prints (a, b): symbolic evaluation
+                # of the printer's source, so it does not matter whether __str__ formats it itself or delegates
+                from sa.symprint import Sym, SymEval, Unsupported
+
+                try:
+                    txt = SymEval(prog).to_str(Sym(ci, {"left": Sym(None, name="a"), "right": Sym(None, name="b")}))
+                    parts = txt.split()
+                    if len(parts) == 3 and parts[0] == "a" and parts[2] == "b":
+                        printed = parts[1]
+                except Unsupported:
+                    printed = None
             if printed is None:
                 problems.append(f"{cls_name}.__str__ prints no single operator symbol")
             else:
